@@ -66,6 +66,9 @@ def gen_small(rng):
     return '\n'.join(lines) + '\n'
 
 
+from vlib.smallgen import gen_small_chunks
+
+
 def gen_lifo(rng):
     kind = rng.choice(['static', 'virtual', 'fixed'])
     bs = 4096 if kind == 'virtual' else rng.choice([256, 1024])
@@ -151,6 +154,10 @@ def run(ctx):
             cases.append(dict(exe=exe[c], script=gen_ord(rng, flags[c][0]), replay_args=['ordered', 'ord'], tag=('ord', c)))
     for i in range(25 * n):
         sc = gen_small(rng)
+        for c in cfgs:
+            cases.append(dict(exe=exe[c], script=sc, replay_args=['ordered', 'small'], tag=('small', c)))
+    for i in range(25 * n):
+        sc = gen_small_chunks(rng)
         for c in cfgs:
             cases.append(dict(exe=exe[c], script=sc, replay_args=['ordered', 'small'], tag=('small', c)))
     for i in range(15 * n):
